@@ -430,6 +430,10 @@ class SurfaceMonitor(Monitor):
                     self.add("C11", "instances-disagree", "%s: %s and %s answer differently" % (arn, answers[0][0], a[0]))
         # sync responses against the notifications
         for ex, rec in res.start_calls:
+            if rec is not None and isinstance(rec.get("status"), int) and rec["status"] >= 500:
+                # (a start call the front end could not serve: nothing of the execution exists on any surface)
+                self.add("C11", "start-call-internal-error", "Start%sExecution of %s answered %s %s" % (
+                    "Sync" if ex.get("via") == "sync" else "", ex.get("name"), rec["status"], str(rec.get("body"))[:120]))
             if rec is None or rec["status"] != 200 or not isinstance(rec["json"], dict):
                 continue
             j = rec["json"]
